@@ -8,7 +8,16 @@ each estimated by the real ``irispie.RedVAR`` and compared with an independent n
 reproduction, exact recovery of a known generating VAR from noise-free data, residual second
 moments, own prior dummy observations, own companion form (mean, eigenvalues, Lyapunov
 autocovariances) and re-simulation of every run of fitted periods.
+
+Call histories and the caller's objects: on every estimate / simulate call of that space the input databox and any
+databox passed as ``target_db`` (not given | a separate databox | the input databox itself) must hold afterwards what
+they held before; and every word of <= 2 (all configurations) / 3 (quick: four configurations) letters over the
+16-letter alphabet of ref.c18_varols.history_alphabet() - estimate {short span, long span} x target_db {none, separate,
+the input databox} x {same model object, fresh one}; simulate with target_db {none, the data databox, its own input};
+the caller overwriting the returned databox in place - is run on ONE databox, every estimate of the word being held
+to the single-call oracles on the ORIGINAL table over its own span.
 """
+import copy
 import itertools
 import re
 
@@ -30,10 +39,22 @@ RULE = ("product of n_endog{1,2,3} x n_exog{0,1} x order{1,2,3} x intercept{T,F}
         "a two-variant case is a noise-free path of a known stable VAR, every other data set a deterministic pseudo-random "
         "table (tables, prior parameters and the calendar frequency rotate with the seed). A (case, variant) is non-trivial "
         "when the reference's own augmented regressor matrix has full rank and condition number <= 1e8 and all estimation "
-        "oracles were evaluated; distinct = (configuration, prior setting, variant, data kind, missing pattern)")
+        "oracles were evaluated; distinct = (configuration, prior setting, variant, data kind, missing pattern). The target_db of "
+        "each of these calls rotates with the pattern index over {not given, a separate databox, the input databox itself} "
+        "(simulate: {not given, the data databox, simulate's own input}, rotating with the run), so every group sees all of them. "
+        "HISTORIES: every valid word of 1..L letters over the alphabet {E(span in {short = rows 7-24, long = rows 0-29 of a "
+        "30-period table}, target_db in {none, separate, input databox}, model in {same object, fresh}), S(target_db in {none, "
+        "data databox, own input}) = simulate every run of fitted periods of the last estimate, X = overwrite in place every "
+        "series of the databox the last estimate returned}; valid = starts with E on a fresh model, S and X need a returned "
+        "databox that was not overwritten (6 / 96 / 1512 words of 1 / 2 / 3 letters). quick: L = 2 for all 36 configurations x "
+        "3 missing patterns (none | a hole inside the short span | holes only outside it) with 1 variant, and for 4 "
+        "configurations x 2 patterns with 2 variants; L = 3 for 4 configurations (every value of every dimension) x the "
+        "hole-inside pattern. thorough: L = 3 for all configurations x 3 patterns (1 variant) and the hole-inside pattern "
+        "(2 variants), L = 2 for the other patterns with 2 variants. A history is non-trivial when every estimate and "
+        "simulate of the word was evaluated on at least one well-posed variant; distinct = (configuration, variants, pattern, word)")
 MANIFEST_ENTRY = dict(
     level="exploration", design="DESIGN.md section 4 / C18",
-    technique="bounded exhaustive enumeration of VAR configurations x missing-data patterns against an independent numpy least-squares / companion-form reference",
+    technique="bounded exhaustive enumeration of VAR configurations x missing-data patterns, and of all call histories of <= 3 letters on one databox / model object, against an independent numpy least-squares / companion-form reference",
     text="For every configuration (1-3 endogenous, 0-1 exogenous variables, order 1-3, intercept on/off, dof_correction on/off, "
          "prior dummies none/Minnesota/mean/both, 1-2 variants) and every pattern of missing data items in a 12-period sample "
          "(quick: <=2 items at (block, period) level, 29 616 estimate calls / ~44k variant estimates; thorough: <=2 items at "
@@ -42,7 +63,17 @@ MANIFEST_ENTRY = dict(
          "reference's own dummy observations), data = fit + stored residual, exact recovery of the generating A, B, c from "
          "noise-free data, cov_residuals = residual second moment over an admissible divisor, get_mean / get_eigenvalues / "
          "get_acov against the reference's companion form (Kronecker Lyapunov solve), and simulate over every maximal run of "
-         "fitted periods against the data.",
+         "fitted periods against the data. Call histories: each of these calls is made with target_db not given / a separate "
+         "databox / the input databox itself (rotating) and must leave the input databox, the target and the databox an "
+         "earlier call returned exactly as they were (names, start, values of every series; ~390k comparisons quick). In "
+         "addition every word of <= 2 letters (all configurations x 3 missing patterns; quick 11 832 histories) and of 3 "
+         "letters (quick: 4 configurations, 6 048 histories; thorough: all configurations, ~240k histories) over a 16-letter "
+         "alphabet (estimate short/long span x target_db none/separate/input x same/fresh model object; simulate with 3 "
+         "targets; caller overwrites the returned databox) is run on one 30-period databox: every estimate of the word must "
+         "pass the single-call oracles (residuals on exactly the complete rows, normal equations, lstsq, fit + residual, "
+         "recovery, covariance, mean, eigenvalues, autocovariances at the last estimate) computed from the ORIGINAL table over "
+         "its own span, every simulate must reproduce the original data, and a model object replaced by a fresh one must "
+         "still report its own estimates at the end.",
     note="Trusted: numpy linear algebra, the 200-line reference in ref/c18_varols.py. Not covered: more than 3 endogenous / 1 "
          "exogenous variables, order > 3, more than 2 (3) missing items, omit_missing=False, resample, other sample lengths, "
          "data values off the tables (all oracles are identities that hold for any data, evaluated on 2 data kinds x seed). "
@@ -50,7 +81,10 @@ MANIFEST_ENTRY = dict(
          "autocovariances are asserted only for a reference spectral radius < 0.98. The dof divisor, the scale of the Minnesota "
          "dummies and the role of dummy residuals in the covariance are undocumented: recorded, not gated. The three defects "
          "found here (intercept=False crash, order >= 2 simulate state, exogenous impact padding) were repaired in /repo "
-         "(1d7f54c, de562d4, 25d401b; DESIGN.md 9.3), so those parts of the space are now reached in full.")
+         "(1d7f54c, de562d4, 25d401b; DESIGN.md 9.3), so those parts of the space are now reached in full. Histories: no "
+         "priors / dof correction, words longer than 3 letters, input taken from a databox an earlier call RETURNED (its "
+         "series are cut to that call's span by design), resample, and in-place changes of the matrices handed out by the "
+         "accessors are not covered.")
 ASSUMPTIONS = [
     "numpy.linalg (lstsq, solve, svd, eigvals, cond) is correct",
     "the degrees-of-freedom divisor is undocumented: T_fit - (n_exog + intercept) and T_fit - (all regressors per equation) are both admitted, the one observed is recorded; where the second is not positive nothing is asserted about the covariance",
@@ -58,6 +92,15 @@ ASSUMPTIONS = [
     "with dummy observations both 'second moment of the sample residuals over T_fit' and 'second moment of sample+dummy residuals over T_fit + number of dummies' are admitted, the one observed is recorded",
     "Minnesota dummies: prior A_1 = diag(rho), A_l = 0, tightness mu * l^kappa, zero exogenous/constant columns; mean dummy (only with intercept): mu*mean at every lag, mu in the constant column",
     "re-simulation is asserted on every maximal run of consecutive fitted periods (with missing rows the estimation span is not one run)",
+    "caller's objects: RedVAR.estimate / simulate have empty docstrings; the tree returns `target_db | output`, a NEW databox, and the "
+    "package's own tests (tests/vars/red_var_test.py) pass one module-level databox as input and as target_db to one estimate after "
+    "the other without re-assigning it. Decision: the INPUT databox must never change (also when it is passed as target_db - a "
+    "change there cuts its series to the span of the call, and any later estimate from the same databox is then no longer least "
+    "squares on the complete periods of the caller's data: gated directly and through the history oracles); a SEPARATE target_db "
+    "and a databox returned by an earlier call are held to the same rule (signature object=separate_target / returned_by_estimate_N, "
+    "so that they can be told apart). What the returned databox keeps of the target's other items is not asserted",
+    "histories: the reference model is 'no call changes the caller's table; a model object holds the estimates of its last estimate "
+    "call'; expected values always come from the harness's own arrays, never from a databox that went through a call",
 ]
 
 BASE_T = 12
@@ -128,7 +171,8 @@ def make_case(cfg, dof, prior, prior_set, nv, mask, seed, idx):
         masks.append(list(map(list, image(mask, n, nx, p))))
         kinds = ["var", "rand"]
     return {"n": n, "nx": nx, "p": p, "ic": ic, "dof": dof, "prior": prior, "prior_set": prior_set, "nv": nv,
-            "nv_via": "ctor" if idx % 2 == 0 else "estimate", "masks": masks, "kinds": kinds, "seed": seed}
+            "nv_via": "ctor" if idx % 2 == 0 else "estimate", "tdb": R.H_EST_TARGETS[(idx // 2) % 3],
+            "masks": masks, "kinds": kinds, "seed": seed}
 
 
 _DATA_CACHE = {}
@@ -151,7 +195,7 @@ def base_data(kind, n, nx, p, ic, seed, vi):
 
 def _sig(case, **extra):
     s = {"has_exog": case["nx"] > 0, "order_ge2": case["p"] >= 2, "intercept": bool(case["ic"]),
-         "with_prior": case["prior"] != "none"}
+         "with_prior": case.get("prior", "none") != "none"}
     s.update(extra)
     return s
 
@@ -164,6 +208,94 @@ def _near(res, name, err, tol):
 
 def _errmsg(e):
     return re.sub(r"\d+", "N", str(e))[:70]
+
+
+
+# ---------------------------------------------------------------------------
+# isolation of the caller's objects
+# ---------------------------------------------------------------------------
+
+def _pkey(period):
+    """comparable key of a period (periods of different frequencies refuse == / !=)"""
+    return (type(period).__name__, str(period))
+
+
+def _snap(db):
+    """independent copy of what a databox holds: names, and for every series its start, end and values"""
+    out = {}
+    for k in list(db.keys()):
+        v = db[k]
+        if isinstance(v, ir.Series):
+            d = np.array(v.data, dtype=float, copy=True)
+            out[k] = ("series", _pkey(v.start), d, d.tobytes())       # start + number of rows fix the end
+        else:
+            out[k] = ("other", copy.deepcopy(v))
+    return out
+
+
+def _snap_diff(before, db):
+    """(kind of change, description) for the first difference between a snapshot and the databox now, else None"""
+    now = set(db.keys())
+    old = set(before)
+    if now - old:
+        return "names_added", "names added: %r" % (sorted(now - old),)
+    if old - now:
+        return "names_removed", "names removed: %r" % (sorted(old - now),)
+    for k in sorted(old):
+        b = before[k]
+        v = db[k]
+        if b[0] == "series":
+            if not isinstance(v, ir.Series):
+                return "series_replaced", "%r is no longer a series" % (k,)
+            d = np.asarray(v.data, dtype=float)
+            if _pkey(v.start) != b[1] or d.shape != b[2].shape:
+                return "series_range_changed", "%r: was start %s shape %r, now start %s shape %r" % (k, b[1][1], b[2].shape, v.start, d.shape)
+            if d.tobytes() != b[3] and not np.array_equal(d, b[2], equal_nan=True):
+                return "series_values_changed", "%r: %d values differ" % (k, int(np.sum(~((d == b[2]) | (np.isnan(d) & np.isnan(b[2]))))))
+        elif isinstance(v, ir.Series) or v != b[1]:
+            return "item_changed", "%r changed" % (k,)
+    return None
+
+
+def _make_sep(data_start, P, nv):
+    """a separate databox to be passed as target_db: bystander items, and series whose names collide with an endogenous
+    variable and with a residual of every model (other values, other ranges) - the RETURNED databox may replace these"""
+    t = ir.Databox()
+    t["zz"] = ir.Series(start=data_start + 1, values=np.arange(1.0, 8.0))
+    t[ENDOG[0]] = ir.Series(start=data_start + 2, values=np.column_stack([100.0 + v + np.arange(P + 5.0) for v in range(nv)]))
+    t["res_" + ENDOG[0]] = ir.Series(start=data_start + 3, values=(5.0, 6.0, 7.0))
+    t["note"] = "kept"
+    t["number"] = 3.5
+    return t
+
+
+class _Isolation:
+    """watches databoxes the caller owns; `check` reports (once per object) a change since `watch`"""
+
+    def __init__(self, res, bad):
+        self.res, self.bad, self.watched, self.reported = res, bad, {}, set()
+
+    def watch(self, role, db):
+        self.watched[role] = (db, _snap(db))
+
+    def unwatch(self, role):
+        self.watched.pop(role, None)
+
+    def check(self, call, **extra):
+        """every watched databox must hold what it held when it was put under watch; -> True if all do"""
+        ok = True
+        for role in sorted(self.watched):
+            db, before = self.watched[role]
+            self.res.count("isolation_checks")
+            d = _snap_diff(before, db)
+            if d is not None:
+                ok = False
+                self.watched[role] = (db, _snap(db))          # from here on, only further changes count
+                if role not in self.reported:                 # one report per object
+                    self.reported.add(role)
+                    self.bad("caller_object_modified", "%s changed the caller's %s databox: %s" % (call, role, d[1]),
+                             call=call, object=role, change=d[0], **extra)
+        return ok
 
 
 def run_case(case, res):
@@ -259,9 +391,22 @@ def run_case(case, res):
     if dof:
         kw["dof_correction"] = True
     any_bad = any(r["status"] != "ok" for r in ref)
+    # target_db: not given | a separate databox | the input databox itself.  Whatever is passed, the call must leave
+    # the caller's databoxes as they were (the result is in the RETURNED databox).
+    tdb = case.get("tdb", "none")
+    iso = _Isolation(res, bad)
+    iso.watch("input", db)
+    if tdb == "sep":
+        kw["target_db"] = _make_sep(data_start, P, nv)
+        iso.watch("separate_target", kw["target_db"])
+    elif tdb == "same":
+        kw["target_db"] = db
+    res.count("estimate_calls_target_" + tdb)
     try:
         model = ir.RedVAR(list(ENDOG[:n]), exogenous_names=list(EXOG[:nx]) or None, order=p, intercept=ic, **ctor_kw)
         est = model.estimate(db, base_span, **kw)
+        iso.check("estimate", target=tdb)
+        iso.watch("returned", est)
     except Exception as e:
         if any_bad:
             res.exclude("rejected_or_failed_on_excluded_input")
@@ -523,11 +668,16 @@ def run_case(case, res):
         span = base_periods[a] >> base_periods[b]
         key = (a, b)
         if key not in done:
+            # simulate's target_db rotates over {not given, the data databox, simulate's own input} with the run
+            stg = R.H_SIM_TARGETS[(len(done) + R.H_EST_TARGETS.index(tdb)) % 3]
+            skw = {} if stg == "none" else {"target_db": db if stg == "db" else est}
+            res.count("simulate_calls_target_" + stg)
             try:
-                sim_db = model.simulate(est, span)
+                sim_db = model.simulate(est, span, **skw)
                 done[key] = ("ok", sim_db)
             except Exception as e:
                 done[key] = ("exc", e)
+            iso.check("simulate", target=stg)
             if done[key][0] == "ok":
                 try:
                     done[key] = ("ok", [np.asarray(sim_db[ENDOG[i]].get_data(span), dtype=float) for i in range(n)])
@@ -609,6 +759,387 @@ def _diagnose_simulation(s, y, x, est, span, vi, n, nx, p, a, b, got, tol):
 
 
 # ---------------------------------------------------------------------------
+# call histories on one databox / one model object
+# ---------------------------------------------------------------------------
+# Reference model (ref/c18_varols.py): no call changes the caller's table, a model object holds the estimates of its
+# last estimate call.  So EVERY estimate of a history must pass the oracles of a fresh single call on the ORIGINAL
+# table over its own span, and every simulate must reproduce the ORIGINAL data; the expected values are computed from
+# the harness's own arrays, never read back from a databox that went through a call.
+
+HIST_T = 30                                # base periods of the history table
+H_ROWS = {"S": (7, 24), "L": (0, HIST_T - 1)}
+
+
+def hist_masks(n, nx, p, seed):
+    """missing-data patterns of the histories (table coordinates): none | one endogenous cell inside the short span
+    (both spans have a hole) | one cell (exogenous if there is one) before the first lag of the short span and one
+    endogenous cell after the short span (only the long span has holes)"""
+    v = seed % n
+    return [(), ((v, p + 13),), ((n if nx else (v + 1) % n, p + 2), ((v + 2) % n, p + 27))]
+
+
+N_HIST_MASKS = 3
+
+
+def make_history(cfg, nv, mask_id, seq, seed):
+    n, nx, p, ic = cfg
+    mask = hist_masks(n, nx, p, seed)[mask_id]
+    masks = [list(map(list, mask))]
+    kinds = ["rand"]
+    if nv == 2:
+        masks.append(list(map(list, sorted((n + nx - 1 - v, HIST_T + p - 1 - t) for v, t in mask))))
+        kinds = ["var", "rand"]
+    return {"kind": "history", "n": n, "nx": nx, "p": p, "ic": ic, "nv": nv, "mask_id": mask_id, "masks": masks,
+            "kinds": kinds, "seq": [list(x) for x in seq], "seed": seed}
+
+
+_HREF_CACHE = {}
+
+
+def _hist_reference(case):
+    """tables and, per span and variant, the reference regression (everything that does not depend on the calls)"""
+    n, nx, p, ic, nv, seed = case["n"], case["nx"], case["p"], case["ic"], case["nv"], case["seed"]
+    key = (n, nx, p, ic, nv, seed, repr(case["masks"]), repr(case["kinds"]))
+    if key in _HREF_CACHE:
+        return _HREF_CACHE[key]
+    P = HIST_T + p
+    ys, xs, gens = [], [], []
+    for vi in range(nv):
+        if case["kinds"][vi] == "var":
+            gen = R.generating_var(n, nx, p, ic, (seed, n, nx, p, 5))
+            y, x = R.var_path(gen[0], gen[1], gen[2], n, nx, p, P, (seed, n, nx, p, 5))
+        else:
+            gen = None
+            y, x = R.random_data(n, nx, P, (seed, vi, n, nx, p, 5))
+        for v, t in case["masks"][vi]:
+            if v < n:
+                y[v, t] = np.nan
+            else:
+                x[v - n, t] = np.nan
+        ys.append(y); xs.append(x); gens.append(gen)
+    k_reg = n * p + nx + int(ic)
+    spans = {}
+    for sp, (lo, hi) in H_ROWS.items():
+        per = []
+        for vi in range(nv):
+            y0, Rg, complete = R.span_rows(ys[vi], xs[vi], p, ic, lo, hi)
+            Tf = int(complete.sum())
+            Yc, Rc = y0[:, complete], Rg[:, complete]
+            r = dict(y0=y0, complete=complete, Tf=Tf, Yc=Yc, Rc=Rc, status="ok", cond=np.inf)
+            sv = np.linalg.svd(Rc, compute_uv=False) if Tf else np.zeros(1)
+            if Tf == 0:
+                r["status"] = "no_data"
+            elif Tf < k_reg or sv[-1] <= 0 or sv[0] / sv[-1] > COND_MAX:
+                r["status"] = "ill_conditioned"
+            else:
+                r["cond"] = sv[0] / sv[-1]
+                own = np.linalg.lstsq(Rc.T, Yc.T, rcond=None)[0].T
+                ownA = own[:, :n * p]
+                Cown = R.companion(ownA, n, p)
+                r["own"] = own
+                r["own_rad"] = float(np.max(np.abs(np.linalg.eigvals(Cown))))
+                r["mcond"] = R.var_mean(ownA, own[:, -1], n, p)[1] if ic else None
+                r["kcond"] = (np.linalg.cond(np.eye((n * p) ** 2) - np.kron(Cown, Cown)) if r["own_rad"] < STABLE_MAX else np.inf)
+                amp, Ck = 1.0, np.eye(n * p)
+                for _ in range(hi - lo + 1):
+                    Ck = Cown @ Ck
+                    amp = max(amp, float(np.sqrt(np.sum(Ck * Ck))))
+                r["amp"] = amp
+                r["runs"] = R.runs(complete)
+            per.append(r)
+        spans[sp] = per
+    out = (ys, xs, gens, spans)
+    if len(_HREF_CACHE) > 64:
+        _HREF_CACHE.clear()
+    _HREF_CACHE[key] = out
+    return out
+
+
+def _letter(x):
+    return ".".join(str(v) for v in x)
+
+
+def _plain_oracles(res, bad, n, nx, p, ic, r, s, U, gm, got_eig, ga, kind, gen, tag):
+    """the estimation oracles of a single call without priors / dof correction -> True if all were evaluated"""
+    k_reg = n * p + nx + int(ic)
+    complete, Tf, Yc, Rc, own = r["complete"], r["Tf"], r["Yc"], r["Rc"], r["own"]
+    A = np.asarray(s.A, dtype=float) if s.A is not None else None
+    B = np.asarray(s.B, dtype=float) if s.B is not None else None
+    c = np.asarray(s.c, dtype=float).reshape(-1) if s.c is not None else None
+    if A is None or A.shape != (n, n * p) or B is None or B.shape != (n, nx) or (c is not None and c.shape != (n,)) or (ic and c is None):
+        bad("shapes", "A %r B %r c %r" % (getattr(A, "shape", None), getattr(B, "shape", None), getattr(c, "shape", None)), **tag)
+        return False
+    if not ic and c is not None and np.any(c != 0):
+        bad("intercept_off_but_nonzero", "c = %r" % (c,), **tag)
+        return False
+    beta = np.hstack([A, B] + ([c.reshape(-1, 1)] if ic else []))
+    if not np.all(np.isfinite(beta)):
+        bad("nonfinite_coefficients", repr(beta), **tag)
+        return False
+    Uc = U[:, complete]
+    if not np.all(np.isfinite(Uc)):
+        bad("residual_missing_on_complete_row", "complete rows %r, residual finite %r" % (
+            complete.astype(int).tolist(), np.isfinite(U).all(axis=0).astype(int).tolist()), **tag)
+        return False
+    # normal equations on exactly the complete rows of this call's span of the original table
+    nrm = np.linalg.norm(Rc)
+    tol = 1e-10 * nrm * (nrm * (1.0 + np.linalg.norm(own)) + np.linalg.norm(Yc))
+    err = float(np.max(np.abs(Rc @ Uc.T)))
+    if err > tol:
+        bad("normal_equations", "max |X u'| = %.3e > tol %.3e (Tf=%d, k=%d, cond=%.2e)" % (err, tol, Tf, k_reg, r["cond"]), **tag)
+    ftol = (1e-8 + 50.0 * r["cond"] ** 2 * EPS) * (1.0 + np.linalg.norm(own))
+    if np.max(np.abs(beta - own)) > ftol:
+        bad("coefficients_vs_lstsq", "max diff %.3e > %.3e" % (np.max(np.abs(beta - own)), ftol), **tag)
+    dscale = np.max(np.abs(Yc)) + np.max(np.abs(beta)) * np.max(np.abs(Rc)) * k_reg
+    derr = float(np.max(np.abs(beta @ Rc + Uc - Yc)))
+    if derr > 1e-10 * dscale:
+        bad("fit_plus_residual", "max |fit + u - y| = %.3e (scale %.3e)" % (derr, dscale), **tag)
+    if kind == "var":
+        if r["cond"] <= COND_RECOVERY:
+            gA, gB, gc = gen
+            gbeta = np.hstack([gA, gB] + ([gc.reshape(-1, 1)] if ic else []))
+            rerr = float(np.max(np.abs(beta - gbeta)))
+            uerr = float(np.max(np.abs(Uc)))
+            if rerr > (1e-8 + 100.0 * r["cond"] ** 2 * EPS) * (1.0 + np.max(np.abs(gbeta))):
+                bad("recovery", "max |estimate - generating| = %.3e" % rerr, **tag)
+            if uerr > 1e-8 * (1.0 + np.max(np.abs(Yc))):
+                bad("recovery_residuals", "max |u| = %.3e on noise-free data" % uerr, **tag)
+            res.count("history_recovery_checked")
+        else:
+            res.exclude("history_recovery_ill_conditioned")
+    # residual covariance (no dof correction, no dummies: second moment over the number of fitted periods)
+    S = np.asarray(s.cov_residuals, dtype=float)
+    M2 = Uc @ Uc.T
+    if S.shape != (n, n) or not np.all(np.isfinite(S)):
+        bad("cov_residuals", "shape %r / non-finite" % (S.shape,), **tag)
+        return False
+    if np.max(np.abs(S * Tf - M2)) > 1e-9 * np.max(np.abs(M2)) + 1e-300 and np.max(np.abs(M2)) > 1e-18 * (1.0 + np.max(np.abs(Yc))) ** 2:
+        bad("cov_residuals", "cov*Tf != u u'; implied divisor %.6g, Tf = %d" % (M2[0, 0] / S[0, 0] if S[0, 0] else np.nan, Tf), **tag)
+    # companion form of the REPORTED estimates (a stale cache from an earlier call on the same object shows here)
+    exp_eig = np.linalg.eigvals(R.companion(A, n, p))
+    rad = float(np.max(np.abs(exp_eig)))
+    try:
+        de = R.multiset_distance(exp_eig, [complex(v) for v in got_eig])
+        if not de <= 1e-6 * (1.0 + rad):
+            bad("eigenvalues", "multiset distance %.3e" % de, **tag)
+    except Exception as e:
+        bad("eigenvalues", "%s: %s" % (type(e).__name__, e), error=type(e).__name__, **tag)
+    gm = np.asarray(gm, dtype=float).reshape(-1)
+    if not ic:
+        if gm.shape != (n,) or np.any(gm != 0):
+            bad("mean", "no intercept: mean should be zero, got %r" % (gm,), **tag)
+    elif r["mcond"] > COND_MAX:
+        res.exclude("history_mean_ill_conditioned")
+    else:
+        om = R.var_mean(A, c, n, p)[0]
+        if gm.shape != (n,) or not np.max(np.abs(gm - om)) <= (1e-9 + 100.0 * r["mcond"] * EPS) * (1.0 + np.max(np.abs(om))):
+            bad("mean", "own %r got %r (cond %.2e)" % (om.tolist(), gm.tolist(), r["mcond"]), **tag)
+    if ga is None:
+        pass
+    elif not r["own_rad"] < STABLE_MAX or r["kcond"] > COND_MAX:
+        res.exclude("history_acov_unstable_or_ill_conditioned")
+    else:
+        oac, _, Om, Cc, Sc = R.acov(A, S, n, p, 1)
+        okk = len(ga) == 2 and all(np.asarray(g_, dtype=float).shape == (n, n) for g_ in ga)
+        worst_a = max(float(np.max(np.abs(np.asarray(g_, dtype=float) - o_))) for g_, o_ in zip(ga, oac)) if okk else np.inf
+        atol = (1e-9 + 100.0 * r["kcond"] * EPS) * (1e-300 + np.max(np.abs(Om)))
+        if not np.all(np.isfinite(Om)) or np.max(np.abs(Om - Cc @ Om @ Cc.T - Sc)) > 1e-8 * np.max(np.abs(Om)) + 1e-300:
+            res.count("reference_lyapunov_selfcheck_failed")
+        elif not worst_a <= atol:
+            bad("acov", "max diff %.3e > %.3e (radius %.3f, cond %.2e)" % (worst_a, atol, rad, r["kcond"]), **tag)
+        else:
+            res.count("history_acov_checked")
+    return True
+
+
+def run_history(case, res):
+    n, nx, p, ic, nv, seed = case["n"], case["nx"], case["p"], case["ic"], case["nv"], case["seed"]
+    seq = [tuple(x) for x in case["seq"]]
+    P = HIST_T + p
+    res.ev()
+    res.count("histories")
+    ys, xs, gens, spans = _hist_reference(case)
+    first = STARTS[seed % len(STARTS)]()
+    data_start = first - p
+    periods = [first + i for i in range(HIST_T)]
+    db = ir.Databox()
+    for i in range(n):
+        db[ENDOG[i]] = ir.Series(start=data_start, values=np.column_stack([ys[vi][i] for vi in range(nv)]))
+    for j in range(nx):
+        db[EXOG[j]] = ir.Series(start=data_start, values=np.column_stack([xs[vi][j] for vi in range(nv)]))
+    sep = _make_sep(data_start, P, nv)
+    state = {"k": 0}
+
+    def bad(check, detail="", **extra):
+        k = state["k"]
+        sig = _sig(case, history=True, step=k, letter=_letter(seq[k]) if k < len(seq) else "end",
+                   after=">".join(_letter(x) for x in seq[:k]), **extra)
+        res.violation(check, sig, dict(case, failed_check=check), detail)
+
+    iso = _Isolation(res, bad)
+    iso.watch("input", db)
+    iso.watch("separate_target", sep)
+    model = None
+    est = None                 # the databox returned by the last estimate
+    est_intact = False
+    cur = None                 # span key of the last estimate
+    earlier_models = []        # (model object that was replaced by a fresh one, copy of its matrices)
+    model_mats = None
+    n_est = 0
+    evaluated = True
+    ctor_kw = {"num_variants": nv} if nv > 1 else {}
+    last_E = max(i for i, x in enumerate(seq) if x[0] == "E")
+
+    def mats(m):
+        out = []
+        for s in m.get_system_matrices(unpack_singleton=False):
+            out.append([None if v is None else np.array(v, dtype=float, copy=True) for v in (s.A, s.B, s.c, s.cov_residuals)])
+        return out
+
+    for k, step in enumerate(seq):
+        state["k"] = k
+        res.count("history_steps")
+        if k:
+            res.cls("history_letter_pair", (_letter(seq[k - 1]), _letter(step)))
+        if step[0] == "E":
+            _, sp, tdb, md = step
+            lo, hi = H_ROWS[sp]
+            span = periods[lo] >> periods[hi]
+            refs = spans[sp]
+            any_bad = any(r["status"] != "ok" for r in refs)
+            if model is None or md == "fresh":
+                if model is not None and model_mats is not None:
+                    earlier_models.append((model, model_mats))
+                model = ir.RedVAR(list(ENDOG[:n]), exogenous_names=list(EXOG[:nx]) or None, order=p, intercept=ic, **ctor_kw)
+            kw = {} if tdb == "none" else {"target_db": sep if tdb == "sep" else db}
+            model_mats = None
+            try:
+                est = model.estimate(db, span, **kw)
+            except Exception as e:
+                if any_bad:
+                    res.exclude("history_rejected_or_failed_on_excluded_input")
+                else:
+                    bad("estimate_exception", "%s: %s" % (type(e).__name__, e), error=type(e).__name__, error_msg=_errmsg(e))
+                return
+            n_est += 1
+            cur, est_intact = sp, True
+            iso.check("estimate", target=tdb)
+            iso.watch("returned_by_estimate_%d" % n_est, est)   # later calls must not change what this one returned
+            try:
+                systems = model.get_system_matrices(unpack_singleton=False)
+                means = model.get_mean(unpack_singleton=False)
+                eigs = model.get_eigenvalues(unpack_singleton=False)
+                if not (len(systems) == len(means) == len(eigs) == nv):
+                    bad("num_variants", "expected %d variants, got %d systems" % (nv, len(systems)))
+                    return
+                U_all = [np.asarray(est["res_" + ENDOG[i]].get_data(span), dtype=float) for i in range(n)]
+                model_mats = mats(model)
+            except Exception as e:
+                if any_bad:
+                    res.exclude("history_rejected_or_failed_on_excluded_input")
+                else:
+                    bad("accessor_exception", "%s: %s" % (type(e).__name__, e), error=type(e).__name__, error_msg=_errmsg(e))
+                return
+            # autocovariances: asserted at the last estimate of the word (every prefix of a word is a word of the space)
+            acovs = None
+            try:
+                if k == last_E:
+                    acovs = model.get_acov(up_to_order=1, unpack_singleton=False)
+            except Exception as e:
+                if not any_bad:
+                    bad("accessor_exception", "get_acov: %s: %s" % (type(e).__name__, e), error=type(e).__name__, error_msg=_errmsg(e))
+            n_ok = 0
+            for vi in range(nv):
+                r = refs[vi]
+                if r["status"] != "ok":
+                    res.exclude("history_" + r["status"])
+                    continue
+                U = np.vstack([U_all[i][:, vi] for i in range(n)])
+                tag = dict(variant=vi, kind=case["kinds"][vi], nth_estimate=min(n_est, 3))
+                if _plain_oracles(res, bad, n, nx, p, ic, r, systems[vi], U, means[vi], eigs[vi],
+                                  acovs[vi] if acovs is not None and len(acovs) == nv else None, case["kinds"][vi], gens[vi], tag):
+                    n_ok += 1
+                    res.count("history_estimates_checked")
+                    if n_est >= 2:
+                        res.count("history_later_estimates_checked")
+                        res.cls("history_later_estimate", (_letter(seq[k - 1]), _letter(step), r["Tf"]))
+            if n_ok == 0:
+                evaluated = False
+        elif step[0] == "S":
+            stg = step[1]
+            refs = spans[cur]
+            lo, hi = H_ROWS[cur]
+            any_bad = any(r["status"] != "ok" for r in refs)
+            jobs = sorted({(a, b) for r in refs if r["status"] == "ok" for a, b in r["runs"]})
+            n_ok = 0
+            for a, b in jobs:
+                span = periods[lo + a] >> periods[lo + b]
+                skw = {} if stg == "none" else {"target_db": db if stg == "db" else est}
+                try:
+                    sim_db = model.simulate(est, span, **skw)
+                except Exception as e:
+                    if any_bad:
+                        res.exclude("history_simulate_failed_with_an_excluded_variant")
+                    else:
+                        bad("simulate_exception", "%s: %s (span rows %d-%d)" % (type(e).__name__, e, lo + a, lo + b),
+                            error=type(e).__name__, error_msg=_errmsg(e))
+                    return
+                iso.check("simulate", target=stg)
+                try:
+                    out = [np.asarray(sim_db[ENDOG[i]].get_data(span), dtype=float) for i in range(n)]
+                except Exception as e:
+                    bad("simulate_output", "%s: %s" % (type(e).__name__, e), error=type(e).__name__)
+                    return
+                for vi in range(nv):
+                    r = refs[vi]
+                    if r["status"] != "ok" or (a, b) not in r["runs"]:
+                        continue
+                    got = np.vstack([out[i][:, vi] for i in range(n)])
+                    want = r["y0"][:, a:b + 1]
+                    serr = np.max(np.abs(got - want)) if np.all(np.isfinite(got)) else np.inf
+                    sc = (1.0 + np.max(np.abs(ys[vi][np.isfinite(ys[vi])]))) * r["amp"] * (hi - lo + 1)
+                    if 1e-11 * sc > 1e-5:
+                        res.exclude("history_simulate_explosive_estimate")
+                        continue
+                    if not serr <= 1e-11 * sc:
+                        bad("simulate_reproduces_data", "max |simulated - data| = %.3e over rows %d-%d" % (serr, lo + a, lo + b),
+                            variant=vi, kind=case["kinds"][vi])
+                        continue
+                    n_ok += 1
+                    res.count("history_simulate_runs_checked")
+            if n_ok == 0:
+                evaluated = False
+        else:
+            # "X": the caller overwrites, in place, every series of the databox the last estimate returned
+            iso.unwatch("returned_by_estimate_%d" % n_est)
+            for nm in list(est.keys()):
+                v = est[nm]
+                if isinstance(v, ir.Series) and v.data.size:
+                    v.data[...] = -7.0e5
+            est_intact = False
+            iso.check("overwrite_returned")
+            res.count("history_overwrites")
+    # ---- end of the history: models that were replaced still report the estimates of their own last call ----------
+    state["k"] = len(seq)
+    for m, before in earlier_models:
+        res.count("history_earlier_model_checks")
+        try:
+            now = mats(m)
+            same = len(now) == len(before) and all(
+                (x is None and y_ is None) or (x is not None and y_ is not None and x.shape == y_.shape and np.array_equal(x, y_, equal_nan=True))
+                for s_now, s_b in zip(now, before) for x, y_ in zip(s_now, s_b))
+        except Exception as e:
+            same = False
+        if not same:
+            bad("earlier_model_changed_by_later_call", "a model object estimated earlier reports other matrices after later calls on other objects")
+    iso.check("history_end")
+    if evaluated:
+        res.nt(("H", n, nx, p, ic, nv, case["mask_id"], tuple(seq)))
+        res.count("history_sequences_evaluated_len%d" % len(seq))
+    return evaluated
+
+
+# ---------------------------------------------------------------------------
 # shards
 # ---------------------------------------------------------------------------
 
@@ -642,6 +1173,47 @@ def shard_cases(item, res, ctx):
             res.sample(case)
 
 
+H3_CONFIGS_QUICK = [(1, 0, 1, True), (2, 1, 2, True), (3, 0, 1, False), (1, 1, 3, False)]     # every value of every dimension
+
+
+def history_plan(ctx):
+    """list of groups (cfg, variants, mask id, min length, max length) - every valid word of the alphabet of
+    ref.c18_varols.history_alphabet() with min..max letters is run for each group"""
+    groups = []
+    for cfg in CONFIGS:
+        for mask_id in range(N_HIST_MASKS):
+            for nv in (1, 2):
+                if ctx.quick:
+                    if nv == 1 or (mask_id < 2 and cfg in H3_CONFIGS_QUICK):
+                        groups.append((cfg, nv, mask_id, 1, 2))
+                    if nv == 1 and mask_id == 1 and cfg in H3_CONFIGS_QUICK:
+                        groups.append((cfg, nv, mask_id, 3, 3))
+                elif nv == 1 or mask_id == 1:
+                    groups.append((cfg, nv, mask_id, 1, 3))
+                else:
+                    groups.append((cfg, nv, mask_id, 1, 2))
+    return groups
+
+
+_SEQ_CACHE = {}
+
+
+def _sequences(lmin, lmax):
+    if (lmin, lmax) not in _SEQ_CACHE:
+        _SEQ_CACHE[(lmin, lmax)] = R.history_sequences(lmax, lmin)
+    return _SEQ_CACHE[(lmin, lmax)]
+
+
+def shard_histories(item, res, ctx):
+    cfg, nv, mask_id, lmin, lmax, lo, hi = item
+    seqs = _sequences(lmin, lmax)
+    for idx in range(lo, min(hi, len(seqs))):
+        case = make_history(cfg, nv, mask_id, seqs[idx], ctx.seed)
+        run_history(case, res)
+        if idx == lo and lo == 0 and mask_id == 1:
+            res.sample(case)
+
+
 def run(ctx, total, info):
     groups = plan(ctx)
     shards = []
@@ -656,10 +1228,24 @@ def run(ctx, total, info):
     # heavy shards first: cost ~ cases x variants x (dimension of the companion form)
     shards.sort(key=lambda s: -((s[-1] - s[-2]) * s[4] * (1 + s[0][0] * s[0][2])))
     engine.run_shards(__name__, "shard_cases", shards, ctx, total)
+    # ---- call histories ------------------------------------------------------------------------------------------
+    hgroups = history_plan(ctx)
+    hshards = []
+    n_hist = 0
+    for g in hgroups:
+        nseq = len(_sequences(g[3], g[4]))
+        n_hist += nseq
+        for lo in range(0, nseq, 400):
+            hshards.append(g + (lo, min(nseq, lo + 400)))
+    hshards.sort(key=lambda s: -((s[-1] - s[-2]) * s[4] * s[1]))
+    engine.run_shards(__name__, "shard_histories", hshards, ctx, total)
     info["exhaustive"] = True
     info["bound_completed"] = 2 if ctx.quick else 3
     info["space"] = {"configurations": len(CONFIGS), "groups": len(groups), "cases": n_cases, "shards": len(shards),
-                     "missing_item_level": "row" if ctx.quick else "cell (+ row-level triples)", "base_periods": BASE_T}
+                     "missing_item_level": "row" if ctx.quick else "cell (+ row-level triples)", "base_periods": BASE_T,
+                     "history_alphabet": [_letter(x) for x in R.history_alphabet()], "history_groups": len(hgroups),
+                     "histories": n_hist, "history_shards": len(hshards), "history_base_periods": HIST_T,
+                     "history_words": {str(L): len(R.history_sequences(L, L)) for L in (1, 2, 3)}}
     c = total.counters
     nt = len(total.nontrivial)
     FL = FLOORS_QUICK if ctx.quick else FLOORS_THOROUGH
@@ -670,18 +1256,44 @@ def run(ctx, total, info):
                 "configs_reached": len(total.classes.get("config", ())),
                 "recovery_configs": len(total.classes.get("recovery_config", ())),
                 "eigenvalues_checked_complex": c.get("eigenvalues_checked_complex", 0),
-                "reference_selfchecks_ok": 0 if c.get("reference_lyapunov_selfcheck_failed", 0) else 1}
+                "reference_selfchecks_ok": 0 if c.get("reference_lyapunov_selfcheck_failed", 0) else 1,
+                "isolation_checks": c.get("isolation_checks", 0),
+                "estimate_calls_target_is_input": c.get("estimate_calls_target_same", 0),
+                "estimate_calls_target_separate": c.get("estimate_calls_target_sep", 0),
+                "simulate_calls_with_target": c.get("simulate_calls_target_db", 0) + c.get("simulate_calls_target_est", 0),
+                "history_sequences_nontrivial": sum(c.get("history_sequences_evaluated_len%d" % L, 0) for L in (1, 2, 3)),
+                "history_later_estimates_checked": c.get("history_later_estimates_checked", 0),
+                "history_simulate_runs_checked": c.get("history_simulate_runs_checked", 0),
+                "history_letter_pairs": len(total.classes.get("history_letter_pair", ())),
+                "history_len3_evaluated": c.get("history_sequences_evaluated_len3", 0),
+                "history_earlier_model_checks": c.get("history_earlier_model_checks", 0),
+                "history_recovery_checked": c.get("history_recovery_checked", 0)}
     info["floors"] = {k: (measured[k], FL[k]) for k in FL}
 
 
-# Vacuity floors: about half of what the unchanged tree measures (on which every intercept=False configuration
-# still fails in estimate, i.e. half of the space is not reached; a repaired tree measures about twice as much).
+# Vacuity floors: about half of what the unchanged tree measures (the floors of the single-call space date from the
+# tree on which every intercept=False configuration still failed in estimate; the repaired tree measures about twice
+# as much).
 FLOORS_QUICK = {"distinct_nontrivial": 9500, "recovery_checked": 1900, "simulate_runs_checked": 6400, "acov_checked": 7300,
                 "mean_checked": 9500, "fitted_row_patterns": 350, "configs_reached": 144, "recovery_configs": 25,
-                "eigenvalues_checked_complex": 6900, "reference_selfchecks_ok": 1}
+                "eigenvalues_checked_complex": 6900, "reference_selfchecks_ok": 1,
+                # call histories / isolation (measured on the unchanged tree, seeds 0-2: 390 630 | 9 384 | 9 888 | 45 791 |
+                # 17 880 | 18 144 | 7 920 | 252 | 6 048 | 8 784 | 1 218..1 566)
+                "isolation_checks": 190000, "estimate_calls_target_is_input": 4600, "estimate_calls_target_separate": 4900,
+                "simulate_calls_with_target": 22000, "history_sequences_nontrivial": 9000,
+                "history_later_estimates_checked": 9000, "history_simulate_runs_checked": 3900, "history_letter_pairs": 240,
+                "history_len3_evaluated": 3000, "history_earlier_model_checks": 4300, "history_recovery_checked": 400}
 FLOORS_THOROUGH = {"distinct_nontrivial": 300000, "recovery_checked": 28000, "simulate_runs_checked": 230000,
                    "acov_checked": 200000, "mean_checked": 300000, "fitted_row_patterns": 1500, "configs_reached": 144,
-                   "recovery_configs": 34, "eigenvalues_checked_complex": 230000, "reference_selfchecks_ok": 1}
+                   "recovery_configs": 34, "eigenvalues_checked_complex": 230000, "reference_selfchecks_ok": 1,
+                   # call histories: measured by running the thorough history shards alone on the unchanged tree (seed 0):
+                   # 239 760 histories, all evaluated | 430 560 | 179 622 | 252 | 217 728 | 173 664 | 119 295; 3.3M isolation
+                   # comparisons in the histories alone. The three call counters of the single-call space are set from its
+                   # size (993 992 calls, targets rotating over 3 values), far below a third of it.
+                   "isolation_checks": 1600000, "estimate_calls_target_is_input": 150000, "estimate_calls_target_separate": 150000,
+                   "simulate_calls_with_target": 100000, "history_sequences_nontrivial": 120000,
+                   "history_later_estimates_checked": 215000, "history_simulate_runs_checked": 90000, "history_letter_pairs": 240,
+                   "history_len3_evaluated": 108000, "history_earlier_model_checks": 86000, "history_recovery_checked": 40000}
 
 
 def replay(case):
@@ -689,6 +1301,9 @@ def replay(case):
     res = engine.Result()
     case = dict(case)
     want = case.pop("failed_check", None)
-    run_case(case, res)
+    if case.get("kind") == "history":
+        run_history(case, res)
+    else:
+        run_case(case, res)
     return ["%s %s %s" % (v["check"], engine.sigkey(v["signature"]), v["detail"]) for v in res.violations
             if want is None or v["check"] == want]
